@@ -200,6 +200,18 @@ pub struct Run {
 }
 
 impl Run {
+    /// Rewrite every argument that is a path below the run's working directory as a path
+    /// relative to it (`style` 0: "name", 1: "./name"): how a path is spelled must not matter.
+    pub fn relativize_args(&mut self, style: u8) {
+        let prefix = format!("{}/", self.dir.display());
+        for a in self.args.iter_mut() {
+            if let Some(rest) = a.strip_prefix(&prefix) {
+                if !rest.is_empty() {
+                    *a = if style == 1 { format!("./{}", rest) } else { rest.to_string() };
+                }
+            }
+        }
+    }
     pub fn new(dir: &Path, tag: &str, args: Vec<String>) -> Self {
         Run {
             bin: Bin::Dev,
